@@ -64,14 +64,28 @@ impl Mode {
                 let base_capstone_reg = mem.base;
                 let index_capstone_reg = mem.index;
 
+                // With an address-size prefix the address registers are narrower
+                // than the mode's addresses (`[eax + ebx*2]` in 64-bit mode,
+                // `[bx + si]` in 32-bit mode): the address is computed from their
+                // zero-extended values and truncated to the address size.
+                let mut address_bits = self.bits();
+                let mut widen = |expr: Expression| -> Result<Expression, Error> {
+                    if expr.bits() < self.bits() {
+                        address_bits = expr.bits();
+                        Expr::zext(self.bits(), expr)
+                    } else {
+                        Ok(expr)
+                    }
+                };
+
                 let base = match base_capstone_reg {
                     x86_reg::X86_REG_INVALID => None,
-                    reg => Some(self.get_register_expression(reg, instruction)?),
+                    reg => Some(widen(self.get_register_expression(reg, instruction)?)?),
                 };
 
                 let index = match index_capstone_reg {
                     x86_reg::X86_REG_INVALID => None,
-                    reg => Some(self.get_register_expression(reg, instruction)?),
+                    reg => Some(widen(self.get_register_expression(reg, instruction)?)?),
                 };
 
                 let scale = Expr::constant(Constant::new(mem.scale as i64 as u64, self.bits()));
@@ -101,6 +115,12 @@ impl Mode {
                     }
                 } else {
                     expr_const(mem.disp as u64, self.bits())
+                };
+
+                let op = if address_bits < self.bits() {
+                    Expr::and(op, expr_const((1u64 << address_bits) - 1, self.bits()))?
+                } else {
+                    op
                 };
 
                 match mem.segment {
